@@ -167,15 +167,28 @@ struct H{
 		Expect e; e.base = base; e.partition = true; e.ishape = s.inputShape(); e.k = k; e.bs = bs;
 		std::map<std::size_t, std::size_t> wanted;
 		std::ostringstream os;
+		Ix idx; RecreationIndices ri;
+		if(fn == 0){ if(idxGiven) idx = *idxGiven; else for(std::size_t j = 0; j != n; ++j) idx.push_back((a * j + b) % k); }
+		if(fn == 1){ if(riGiven) ri = *riGiven; else for(std::size_t j = 0; j != n; ++j){ ri.first.push_back((j + a) % n); ri.second.push_back((a * j + b) % k); } }
+		// second code path: the same call on a copy of the elements stored in the fresh createLabeledDataFromRange layout
+		// (functions 0-4 promise a result that does not depend on how the incoming dataset is cut into batches)
+		Ix part2; Flat flat2; std::vector<Ix> val2; bool have2 = false;
+		if(fn <= 4){
+			std::vector<I> in2; std::vector<L> lab2;
+			for(Elem const& x: base){ in2.push_back(Codec<I>::enc(x.first)); lab2.push_back(LCodec<L>::enc(x.second)); }
+			DS s2 = createLabeledDataFromRange(in2, lab2);
+			if(fn >= 2) random::globalRng.seed((unsigned)seed);
+			CVFolds<DS> o2 = plainCall(fn, s2, k, bs, idx, ri, base);
+			part2 = o2.dataset().getPartitioning(); flat2 = flat(o2.dataset());
+			for(std::size_t i = 0; i != o2.size(); ++i) val2.push_back(o2.validationFoldIndices(i));
+			have2 = true;
+		}
 		if(fn >= 2) random::globalRng.seed((unsigned)seed);
 		if(fn == 0){
-			Ix idx; if(idxGiven) idx = *idxGiven; else for(std::size_t j = 0; j != n; ++j) idx.push_back((a * j + b) % k);
 			for(std::size_t j = 0; j != n; ++j) wanted[base[j].first] = idx[j];
 			out = bs == 256 ? createCVIndexed(s, k, idx) : createCVIndexed(s, k, idx, bs);      // 256: the default argument
 			e.wanted = &wanted;
 		}else if(fn == 1){
-			RecreationIndices ri;
-			if(riGiven) ri = *riGiven; else for(std::size_t j = 0; j != n; ++j){ ri.first.push_back((j + a) % n); ri.second.push_back((a * j + b) % k); }
 			bool isPerm = true; { Ix t = ri.first; std::sort(t.begin(), t.end()); for(std::size_t i = 0; i != n; ++i) if(t[i] != i) isPerm = false; }
 			if(isPerm){ for(std::size_t j = 0; j != n; ++j) wanted[base[ri.first[j]].first] = ri.second[j]; e.wanted = &wanted; }
 			else{ Flat g; for(std::size_t j = 0; j != n; ++j) g.push_back(base[ri.first[j]]); e.base = g; }   // a gather, not a partition of the original
@@ -193,7 +206,6 @@ struct H{
 			os << "obs=" << showNats(p) << " ";
 			e.sameSize = true;
 		}else if(fn == 4){
-			RecreationIndices ri;
 			out = balanced(s, k, bs, &ri, base);
 			os << "obs=" << showNats(ri.first) << " rec=" << showNats(ri.first) << "/" << showNats(ri.second) << " ";
 			e.sameSize = true; e.balanced = true;
@@ -212,8 +224,20 @@ struct H{
 			if(hi > lo + 1) fail("batch-fold-sizes-differ-by-more-than-one");
 			if(flat(s) != base || s.getPartitioning() != out.dataset().getPartitioning()) fail("createCVBatch-changed-the-dataset");
 		}
+		if(have2){
+			bool same = part2 == out.dataset().getPartitioning() && flat2 == flat(out.dataset()) && val2.size() == out.size();
+			for(std::size_t i = 0; same && i != out.size(); ++i) same = val2[i] == out.validationFoldIndices(i);
+			if(!same) fail("result-depends-on-incoming-batch-layout");
+		}
 		os << showFolds(out, e);
 		return os.str();
+	}
+	CVFolds<DS> plainCall(std::size_t fn, DS& s, std::size_t k, std::size_t bs, Ix const& idx, RecreationIndices const& ri, Flat const& base){
+		if(fn == 0) return bs == 256 ? createCVIndexed(s, k, idx) : createCVIndexed(s, k, idx, bs);
+		if(fn == 1) return bs == 256 ? createCVFullyIndexed(s, k, ri) : createCVFullyIndexed(s, k, ri, bs);
+		if(fn == 2) return bs == 256 ? createCVIID(s, k) : createCVIID(s, k, bs);
+		if(fn == 3) return bs == 256 ? createCVSameSize(s, k) : createCVSameSize(s, k, bs);
+		RecreationIndices r; return balanced(s, k, bs, &r, base);
 	}
 	// class labels: the public function; other labels: detail:: with a membership vector
 	static CVFolds<LabeledData<I, unsigned int> > balancedImpl(LabeledData<I, unsigned int>& s, std::size_t k, std::size_t bs, RecreationIndices* ri, Flat const&){
@@ -360,6 +384,47 @@ struct H{
 			std::string out = showFolds(f, e);
 			prev = cur; havePrev = true; cur = f;
 			return "ok " + out;
+		}
+		// ---- incoming batch layout of the dataset variable (the fold-construction functions must not depend on it) ----
+		if(op == "data"){                                              // data m0 n l_1..l_n : set := createLabeledDataFromRange(…, m0)
+			if(a.size() < 2 || a[1] == 0 || a.size() != 2 + a[1]) return "undefined";
+			std::vector<I> in; std::vector<L> lab;
+			for(std::size_t i = 0; i != a[1]; ++i){ in.push_back(Codec<I>::enc(i)); lab.push_back(LCodec<L>::enc((unsigned int)a[2 + i])); }
+			set = createLabeledDataFromRange(in, lab, a[0]); haveSet = true;
+			return "ok DS" + showDS(set);
+		}
+		if(op == "repart" || op == "splitat" || op == "splice"){
+			if(!haveSet || set.numberOfElements() == 0) return "undefined";
+			Flat before = flat(set);
+			for(std::size_t s: set.getPartitioning()) if(s == 0) return "undefined";
+			Shape ish = set.inputShape();
+			set.makeIndependent();            // documented precondition of changing the batch structure of a dataset that shares batches
+			Flat expect;
+			if(op == "repart"){                                          // repart s_1..s_m : set.repartition(sizes)
+				std::size_t sum = 0;
+				for(std::size_t s: a){ if(s == 0) return "undefined"; sum += s; }
+				if(a.empty() || sum != before.size()) return "undefined";
+				set.repartition(a);
+				expect = before;
+				if(set.getPartitioning() != a) fail("repartition-layout");
+			}else{
+				// splitat e w : tail = splitAtElement(set, e);  splice b w : tail = set.splice(b)
+				// w: 0 keep the head, 1 keep the tail, 2 set.append(tail), 3 tail.append(set); set = tail
+				if(a.size() != 2 || a[1] > 3 || a[0] == 0) return "undefined";
+				if(op == "splitat" ? a[0] >= before.size() : a[0] >= set.numberOfBatches()) return "undefined";
+				DS tail = op == "splitat" ? splitAtElement(set, a[0]) : set.splice(a[0]);
+				Flat fh = flat(set), ft = flat(tail);
+				Flat both = fh; both.insert(both.end(), ft.begin(), ft.end());
+				if(both != before) fail("split-changed-the-elements");
+				if(op == "splitat" && fh.size() != a[0]) fail("split-point");
+				if(a[1] == 0) expect = fh;
+				else if(a[1] == 1){ set = tail; expect = ft; }
+				else if(a[1] == 2){ set.append(tail); expect = both; }
+				else{ tail.append(set); set = tail; expect = ft; expect.insert(expect.end(), fh.begin(), fh.end()); }
+			}
+			if(flat(set) != expect) fail("layout-op-changed-the-elements");
+			if(set.inputShape() != ish) fail("layout-op-shape-lost");
+			return "ok DS" + showDS(set);
 		}
 		if(op == "debug") return a.empty() ? "ok" : "undefined";      // marks cases for the binary built without NDEBUG
 		if(op == "wprobe"){
